@@ -32,7 +32,7 @@ import (
 // op:     a<h> Add.. creating handler h | m<h> Remove(cuid of h) | k<j> Clear(clear command j) | K ClearAll
 // action: v.n arrive | d.n deliver | s.n.k snapshot of phase k | g.n.h bg wrapper signals |
 //         S.n.h start | E.n.h.o end (o: 0/1 returned false/true, p panicked) | b.n.k barrier |
-//         c.i.op call | l.i.op takes effect | r.i.op.res return | t.h wrapper/deadline Remove | x.h close(done)
+//         c.i.op call | l.i.op takes effect | r.i.op.res return | t.h finish calls Remove | x.h close(done)
 //
 // Run evaluates the property on the observed trace (the four predicates, directly) and
 // answers "accept"; the model runs its checker `accepts` on schedule and trace.
@@ -715,7 +715,7 @@ func trOracle(sc *trScenario, obs []trAct) string {
 		}
 	}
 	// temporary handlers: done closed at most once; closed once the function returned true or
-	// the deadline passed, unless somebody else removed the handler first
+	// the deadline passed, whoever removed the handler
 	for h, d := range sc.handlers {
 		if !d.tmp {
 			continue
@@ -725,10 +725,10 @@ func trOracle(sc *trScenario, obs []trAct) string {
 		}
 		_, registered := addRet[h]
 		registered = registered || isInit[h]
-		if !registered || len(closes[h]) == 1 {
-			continue
+		if len(closes[h]) == 1 && !endTrue[h] && !d.deadline {
+			return fmt.Sprintf("tmp-done-closed-early: done of handler %d closed although it never returned true and has no deadline", h)
 		}
-		if !endTrue[h] && !d.deadline {
+		if !registered || len(closes[h]) == 1 || (!endTrue[h] && !d.deadline) {
 			continue
 		}
 		removedByOther := false
@@ -737,9 +737,10 @@ func trOracle(sc *trScenario, obs []trAct) string {
 				removedByOther = true
 			}
 		}
-		if !removedByOther {
-			return fmt.Sprintf("tmp-done-not-closed: temporary handler %d returned true or passed its deadline, nobody else removed it, done is still open", h)
+		if removedByOther {
+			return fmt.Sprintf("tmp-done-not-closed-after-removal: temporary handler %d returned true or passed its deadline after somebody else removed it, done is still open", h)
 		}
+		return fmt.Sprintf("tmp-done-not-closed: temporary handler %d returned true or passed its deadline, done is still open", h)
 	}
 	// a panic does not stop later events: covered by missed-delivery on the events after it
 	return ""
@@ -761,18 +762,19 @@ func c06Guess(sc *trScenario, obs []trAct) []trAct {
 
 	// what the trace shows
 	started := map[nh]bool{}
-	closedIn := map[int]bool{}
-	retRes := map[string]byte{} // registrar.(index of the operation in its program) -> result
+	trueRemoves := map[int]int{} // Remove(h) calls returning true that have not taken effect yet
+	retRes := map[string]byte{}  // registrar.(index of the operation in its program) -> result
 	retSeq := map[int]int{}
 	for _, a := range obs {
 		switch a.kind {
 		case 'S':
 			started[nh{a.n, a.h}] = true
-		case 'x':
-			closedIn[a.h] = true
 		case 'r':
 			retRes[fmt.Sprintf("%d.%d", a.n, retSeq[a.n])] = a.o
 			retSeq[a.n]++
+			if a.op.kind == 'm' && a.o == '1' {
+				trueRemoves[a.op.arg]++
+			}
 		}
 	}
 	desired := func(n, k int) map[int]bool {
@@ -824,31 +826,38 @@ func c06Guess(sc *trScenario, obs []trAct) []trAct {
 		}
 		return false
 	}
+	finished := map[int]int{} // finish calls of h that have done their Remove
+	var lin func(j int)
+	// tmpRemove: a wrapper / deadline goroutine of h calls finish; a registrar's Remove(h) that
+	// returned true got there first
 	tmpRemove := func(h int) {
+		if live[h] {
+			for j, p := range calls {
+				if p.op.kind == 'm' && p.op.arg == h && resOf(p) == '1' {
+					lin(j)
+					break
+				}
+			}
+		}
 		emit(trAct{kind: 't', h: h})
 		pend[h]--
+		finished[h]++
 		if live[h] && !sc.handlers[h].intl {
 			live[h] = false
 		}
 	}
-	// lin puts a called operation into effect; wrappers whose close(done) the trace shows
-	// must have removed their handler before somebody else does
-	lin := func(j int) {
+	// lin puts a called operation into effect
+	lin = func(j int) {
 		p := calls[j]
 		calls = append(calls[:j], calls[j+1:]...)
-		if p.op.kind != 'a' {
-			for h := range sc.handlers {
-				if live[h] && covers(p.op, h) && closedIn[h] && pend[h] > 0 &&
-					!(p.op.kind == 'm' && resOf(p) == '1') {
-					tmpRemove(h)
-				}
-			}
-			// Remove that returned false: the handler is gone already
-			if p.op.kind == 'm' && resOf(p) == '0' && live[p.op.arg] && pend[p.op.arg] > 0 {
-				tmpRemove(p.op.arg)
-			}
+		// Remove that returned false: the handler is gone already
+		if p.op.kind == 'm' && resOf(p) == '0' && live[p.op.arg] && pend[p.op.arg] > 0 {
+			tmpRemove(p.op.arg)
 		}
 		emit(trAct{kind: 'l', n: p.i, op: p.op})
+		if p.op.kind == 'm' && resOf(p) == '1' {
+			trueRemoves[p.op.arg]--
+		}
 		switch p.op.kind {
 		case 'a':
 			live[p.op.arg] = true
@@ -901,8 +910,8 @@ func c06Guess(sc *trScenario, obs []trAct) []trAct {
 					if p.op.kind == 'm' && resOf(p) != '1' {
 						continue
 					}
-					if closedIn[h] && pend[h] == 0 {
-						continue // its own wrapper must remove it, and cannot yet
+					if p.op.kind != 'm' && trueRemoves[h] > 0 {
+						continue // a Remove(h) still to take effect returns true: nobody else removes h
 					}
 					hits := false
 					for w := range want {
@@ -918,7 +927,7 @@ func c06Guess(sc *trScenario, obs []trAct) []trAct {
 					done = true
 					break
 				}
-				if !done && pend[h] > 0 && closedIn[h] {
+				if !done && pend[h] > 0 && trueRemoves[h] == 0 {
 					toTmp = append(toTmp, h)
 					done = true
 				}
@@ -1026,7 +1035,8 @@ func c06Guess(sc *trScenario, obs []trAct) []trAct {
 			}
 			emit(a)
 		case 'x':
-			if live[a.h] && pend[a.h] > 0 {
+			// close(done) is the second half of a finish: its Remove comes first
+			if finished[a.h] == 0 && pend[a.h] > 0 {
 				tmpRemove(a.h)
 			}
 			emit(a)
